@@ -249,11 +249,8 @@ structure Sizes where
   panic : Option String := none
 deriving Repr
 
-def stageSizes (ev : Matching.Event α) : Sizes :=
-  match stageAvalanches P ev with
-  | .panic s => { panic := some s }
-  | .err _ => {}
-  | .ok avs =>
+/-- The sizes downstream of a given avalanche list. -/
+def stageSizesFrom (avs : List (Matching.Avalanche α)) : Sizes :=
   match stagePoints P avs with
   | .panic s => { avalanches := some avs.length, panic := some s }
   | .err _ => {}
@@ -280,5 +277,11 @@ def stageSizes (ev : Matching.Event α) : Sizes :=
         clusterSizes := r.clusters.map List.length, tracks := some ts.size, candidates := some cand,
         vertexTracks := some ((v.map (·.cluster.length)).getD 0),
         panic := match remainderOf P ts v with | .panic s => some s | _ => none }
+
+def stageSizes (ev : Matching.Event α) : Sizes :=
+  match stageAvalanches P ev with
+  | .panic s => { panic := some s }
+  | .err _ => {}
+  | .ok avs => stageSizesFrom P avs
 
 end AlphaG.VertexPipeline
